@@ -2,6 +2,7 @@ CONSTANTS Dags <- MCDags
   Horizon = 1
   Sched <- MCSched
   MaxFileOps = 2
+  RescanOnWatch = TRUE
   ReleaseOnError = TRUE
 SPECIFICATION Spec
 CONSTRAINT Bound
